@@ -57,6 +57,10 @@ class Experiment:
         cols = []
         fsc = np.clip(r.lognormal(5.5, 0.25, n), 0, res - 1)
         ssc = np.clip(fsc * r.lognormal(-0.3, 0.2, n), 0, res - 1)
+        # 8-bit scatter detectors (resolution 256) when the experiment says so: cell samples only
+        sres = 256 if (getattr(self, 'scatter_res', None) == 256 and kind != 'beads') else res
+        if sres != res:
+            fsc = np.clip(fsc * (sres / float(res)), 0, sres - 1); ssc = np.clip(ssc * (sres / float(res)), 0, sres - 1)
         cols += [fsc, ssc]
         pop = np.repeat(np.arange(5), n // 5 + 1)[:n]
         r.shuffle(pop)
@@ -119,7 +123,7 @@ class Experiment:
         if self.scatter_gain:
             extra += [['$P1G', str(self.scatter_gain)], ['$P2G', str(self.scatter_gain)]]
         spec = {'version': 'FCS3.0', 'delim': '/', 'datatype': self.datatype, 'byteord': '1,2,3,4', 'widths': widths,
-                'ranges': [res, res] + chres + [res], 'events': ev, 'names': names, 'pne': pne, 'extra': extra}
+                'ranges': [sres, sres] + chres + [res], 'events': ev, 'names': names, 'pne': pne, 'extra': extra}
         b, _ = fcswriter.build(spec)
         path = os.path.join(self.dir, name)
         with open(path, 'wb') as f:
